@@ -148,6 +148,7 @@ CLAIMED = {
             "forms, implementation vs model. Oracle on the implementation: path/path_value/getpath agreement, the manual's reduction "
             "rules for |= as program equations, iter_upd/index_upd/slice_upd of the manual, value-constructing expressions fail, "
             "p |= u against getpath(path(p)) |= u, setpath and delpaths along path(p) on arrays, objects and text strings. "
+            "Updates through definitions, filter arguments and folds (Proofs/UpdateFolds.v): a definition is updated through its body, a filter argument in the context it was written in, reduce/foreach hand the update inwards item by item (the update through the nested-pipe expansion). "
             "getpath(path(p)) = p: for paths of any length through iteration, indices, slices and optional parts, every (value, path) pair that is yielded addresses its value - indexing the input along the path gives exactly the value (for values whose objects can be addressed by their own keys - proved for all JSON-like values; a NaN key is the excluded case). Term level (Proofs/PathsProject.v): for every term without `//` and `try` in path position - pipes, commas, conditionals, bindings, reduce/foreach, labels, path terms, `..`, calls with variable and filter arguments, first/last/limit/skip - evaluating for paths yields, in order, exactly the outputs of evaluating for values, each with its position, or stops with the path-expression error (paths_carry_the_outputs, by induction on the fuel of the three mutually recursive evaluators). Updates: the interpreter's update clauses are the manual's reduction rules (identity, pipe, comma, binding by binding, conditional, alternative, paths), exploded paths are updated part by part (path_update_composes), value-constructing terms fail; the parts themselves are characterised under C10. Partial: updates through definitions/closures and reduce/foreach, paths under `//` and `try`, and destructuring patterns rest on the correspondence.", "7.2",
             "Coq proof (path level) + model/implementation correspondence + in-language identities"),
     "C10": ("Theorems: abs_index selects exactly the positions inside (negatives from the end), slice bounds are clipped into [0,len] "
